@@ -66,6 +66,13 @@ class LoopSpec:
         empty = z3.StringVal("") if is_str else z3.Empty(sort)
         c = I.ctx
         where = f"{I.call_stack[-1]} loop@{st.lineno}"
+        shared = list((getattr(c, "class_attrs", None) or {}).items())
+        for name, kind in self.modifies.items():
+            if isinstance(kind, tuple) and kind[0] == "seq":
+                cur = self.view(env).get(name)
+                hit = [k for k, v in shared if v is cur and isinstance(cur, (list, SList))]
+                if hit:     # the loop appends to an object that is class-level state: every later call (and every instance) sees the additions
+                    c.require(False, f"the list '{name}' the loop builds is a fresh object, not the class-level list {hit[0][0].split(':')[-1]}.{hit[0][1]} (shared by all calls)", kind="FRAME", site=where)
         entry = self.snapshot(env)
         self.entry_key = f"$entry@{st.lineno}"
         env.vars[self.entry_key] = entry
